@@ -107,3 +107,63 @@ def lines_for(events, typ):
             lines.append("san %s %s" % (k, enc(a[0])))
         exp.append(e)
     return lines, exp, modelled
+
+
+def record_resolver(markup, base, typ):
+    import feedparser.urls as U
+    events = []
+
+    class Rec(U.RelativeURIResolver):
+        def _wrap(self, kind, args, fn):
+            n = len(self.pieces)
+            try:
+                fn()
+            finally:
+                events.append({"kind": kind, "args": args, "pieces": "".join(self.pieces[n:]), "npieces": len(self.pieces) - n})
+
+        def unknown_starttag(self, tag, attrs):
+            a = [tuple(x) for x in attrs]
+            self._wrap("stag", (tag, a), lambda: U.RelativeURIResolver.unknown_starttag(self, tag, attrs))
+
+        def unknown_endtag(self, tag):
+            self._wrap("etag", (tag,), lambda: U.RelativeURIResolver.unknown_endtag(self, tag))
+
+        def handle_data(self, text):
+            self._wrap("text", (text,), lambda: U.RelativeURIResolver.handle_data(self, text))
+
+        def handle_charref(self, ref):
+            self._wrap("charref", (ref,), lambda: U.RelativeURIResolver.handle_charref(self, ref))
+
+        def handle_entityref(self, ref):
+            self._wrap("entref", (ref,), lambda: U.RelativeURIResolver.handle_entityref(self, ref))
+
+        def handle_comment(self, text):
+            self._wrap("comment", (text,), lambda: U.RelativeURIResolver.handle_comment(self, text))
+
+        def handle_pi(self, text):
+            self._wrap("pi", (text,), lambda: U.RelativeURIResolver.handle_pi(self, text))
+
+        def handle_decl(self, text):
+            self._wrap("decl", (text,), lambda: U.RelativeURIResolver.handle_decl(self, text))
+
+    p = Rec(base, "utf-8", typ)
+    p.feed(markup)
+    return events, p.output()
+
+
+def res_lines_for(events, base):
+    from feedparser.urls import make_safe_absolute_uri
+    lines, exp = [], []
+    for ev in events:
+        k, a = ev["kind"], ev["args"]
+        e = "P " + enc(ev["pieces"]) if ev["pieces"] else "-"
+        if k == "stag":
+            tag, attrs = a
+            if not ascii_ok(tag) or any(not ascii_ok(x) for x, _ in attrs) or any(x.lower() in ("rel", "type") and not ascii_ok(y) for x, y in attrs):
+                break
+            fields = ["|".join([enc(x), enc(y), enc(make_safe_absolute_uri(base, y.strip()))]) for x, y in attrs]
+            lines.append("res stag %s %s" % (enc(tag), " ".join(fields)))
+        else:
+            lines.append("res %s %s" % (k, enc(a[0])))
+        exp.append(e)
+    return lines, exp
